@@ -464,9 +464,9 @@ pub fn def() -> CheckDef {
                tick groups traversed with liquidity.",
         assumptions: vec!["H2 step trace (required for the per-step rate)", "adaptive variable states are never fabricated: they are reached through the program's own swaps"],
         subs: vec![
-            sub("schedule", 150_000, 10_000_000, adaptive_case, |c: &SimCase, l: &mut Local| check_schedule(c, l)),
-            sub("zero_control_factor", 60_000, 3_000_000, adaptive_case, |c: &SimCase, l: &mut Local| check_zero_cf(c, l)),
-            sub("oracle_account_and_trade_enable", 3000, 100_000, ix_case, |c: &IxCase, l: &mut Local| check_ix(c, l)),
+            sub("schedule", 1_500_000, 50_000_000, adaptive_case, |c: &SimCase, l: &mut Local| check_schedule(c, l)),
+            sub("zero_control_factor", 600_000, 10_000_000, adaptive_case, |c: &SimCase, l: &mut Local| check_zero_cf(c, l)),
+            sub("oracle_account_and_trade_enable", 20_000, 300_000, ix_case, |c: &IxCase, l: &mut Local| check_ix(c, l)),
         ],
     }
 }
